@@ -57,7 +57,8 @@ PROPS['C04'] = dict(
 PROPS['C01'] = dict(
   level='proof',
   verus=[dict(unit='ops', min_functions=20), dict(unit='native', min_functions=3)],
-  kani=[dict(crate='value', harnesses=['proofs::o14_6_falsey', 'proofs::o14_3_num_eq_ieee'], features='', kind='complete', assumption_ids=['A-kani']),
+  kani=[dict(crate='front', harnesses=['proofs::o01_p_infix_table', 'proofs::o01_p_higher', 'proofs::o01_p_prefix_table'], kind='complete', assumption_ids=['A-kani']),
+        dict(crate='value', harnesses=['proofs::o14_6_falsey', 'proofs::o14_3_num_eq_ieee'], features='', kind='complete', assumption_ids=['A-kani']),
         dict(crate='value', harnesses=['proofs::o14_6_falsey', 'proofs::o14_3_num_eq_ieee'], features='nan_boxing', kind='complete', assumption_ids=['A-kani'])],
   not_decided=['parser precedence/associativity, statement lowering, scope-exit drops, returns: everything in parser.rs / compiler/mod.rs',
                'call protocol (arity check, frame push/pop, return value placement)',
@@ -82,14 +83,55 @@ PROPS['C16'] = dict(
 )
 _HEAP_COMPLETE = ['proofs::o20_2_next_aligned', 'proofs::o20_2_array_layout_str', 'proofs::o20_2_array_layout_tuple', 'proofs::o20_2_array_layout_instance',
                   'proofs::o20_2_vector_layout_list', 'proofs::o20_2_obj_layout_fixed']
-_HEAP_BOUNDED = ['proofs::o20_1_alloc_drop_string', 'proofs::o20_1_alloc_drop_tuple', 'proofs::o20_1_alloc_drop_box', 'proofs::o20_1_alloc_drop_method']
-_GC_BOUNDED = ['proofs::o20_4_full_collection_exact', 'proofs::o20_4n_nursery_collection_exact', 'proofs::o05_4_marks_cleared', 'proofs::o05_4_temp_root_survives']
+_HEAP_BOUNDED = ['proofs::o20_1_alloc_drop_string', 'proofs::o20_1_alloc_drop_tuple', 'proofs::o20_1_alloc_drop_box', 'proofs::o20_1_alloc_drop_method',
+                 'proofs::o20_1_alloc_drop_list', 'proofs::o20_3_unique_vector_handle', 'proofs::o20_3_shared_vector_handle', 'proofs::o20_3_array_handle']
+_GC_BOUNDED = ['proofs::o20_4_full_collection_exact', 'proofs::o20_4n_nursery_collection_exact', 'proofs::o20_4p_promoted_then_full_exact']
+_GC_C05 = ['proofs::o05_4_marks_cleared', 'proofs::o05_4_temp_root_survives', 'proofs::o20_4_full_collection_exact']
+_GC_C09 = ['proofs::o09_intern_twice', 'proofs::o09_intern_across_collection']
 PROPS['C20'] = dict(
   level='proof',
   kani=[dict(crate='heap', harnesses=_HEAP_COMPLETE, kind='complete', assumption_ids=['A-kani']),
-        dict(crate='heap', harnesses=_HEAP_BOUNDED, kind='bounded', bound='string <= 3 bytes, tuple <= 3 elements, unwind 8', assumption_ids=['A-kani', 'A-bound']),
+        dict(crate='heap', harnesses=_HEAP_BOUNDED, kind='bounded', bound='string <= 3 bytes, tuple <= 3 elements, list/vector len <= 2 cap <= 4, array <= 3, unwind 8', assumption_ids=['A-kani', 'A-bound']),
         dict(crate='gc', harnesses=_GC_BOUNDED, kind='bounded', bound='one LyBox, one or two collections, unwind 4', timeout=2400, jobs=4,
              assumption_ids=['A-kani', 'A-bound', 'A-stub'])],
   not_decided=['"exactly the objects reachable from the program": the root sets of Vm and Compiler (C05)', 'long-run boundedness (follows by arithmetic from exact accounting after every collection; stated, not proved)',
                'intern table contents (C09)'],
+)
+
+PROPS['C05'] = dict(
+  level='other',
+  kani=[dict(crate='trace', harnesses=['proofs::o05_2_dispatch'], kind='bounded', bound='12 of 13 object kinds (Map excluded), one raw object, unwind 15', timeout=1800, jobs=1, assumption_ids=['A-kani', 'A-stub', 'A-bound']),
+        dict(crate='gc', harnesses=_GC_C05, kind='bounded', bound='one LyBox, one or two collections, unwind 4', timeout=2400, jobs=3, assumption_ids=['A-kani', 'A-stub', 'A-bound'])],
+  explanation='bounded function-contract checks (Kani) on the real tracing dispatch and the real Allocator sweep; per-kind trace bodies and the VM/compiler root sets are NOT decided',
+  not_decided=['O-05.1 per-kind trace bodies reach every child: CBMC loses pointer provenance through the Value enum (tool limit)',
+               'root sets of Vm / Compiler / Fiber, natives\' push_root discipline, "same output under every collection schedule"'],
+)
+PROPS['C09'] = dict(
+  level='other',
+  kani=[dict(crate='gc', harnesses=_GC_C09, kind='bounded', bound='one 2-byte string, at most one full collection, unwind 10', timeout=2400, jobs=2, assumption_ids=['A-kani', 'A-stub', 'A-bound'])],
+  explanation='bounded function-contract checks (Kani) on the real Allocator::manage_str / has_str / sweep_intern_cache',
+  not_decided=['that every string-producing native and op goes through manage_str', 'Value equality/hash of strings is identity (C14 covers Value; interning makes identity == content only under the above)'],
+)
+PROPS['C10'] = dict(
+  level='other',
+  kani=[dict(crate='coll', harnesses=['proofs::o10r_value_identity_no_growth'], kind='bounded', bound='two lists of one element', timeout=900, jobs=1, assumption_ids=['A-kani', 'A-bound']),
+        dict(crate='coll', harnesses=['proofs::o10_push_grows', 'proofs::o10_value_identity_across_growth'], kind='bounded', bound='one list len 1 cap 1, one push', timeout=1800, jobs=2, mem_gb=16,
+             assumption_ids=['A-kani', 'A-stub', 'A-bound'])],
+  explanation='bounded function-contract checks (Kani) on the real List forwarding representation; Value identity across growth is a known finding',
+  not_decided=['which aliases scan_roots rewrites; maps, instances and other mutable objects (they never relocate: identity is the address)'],
+)
+PROPS['C11'] = dict(
+  level='other',
+  kani=[dict(crate='lib', harnesses=['proofs::o11_determine_index'], kind='complete', extra=['-Z', 'unstable-options', '--no-overflow-checks'], timeout=900, jobs=1, assumption_ids=['A-kani']),
+        dict(crate='coll', harnesses=['proofs::o11_pop'], kind='bounded', bound='list len <= 2, cap 3', timeout=900, jobs=1, assumption_ids=['A-kani', 'A-bound']),
+        dict(crate='coll', harnesses=['proofs::o11_remove', 'proofs::o11_insert'], kind='bounded', bound='list len <= 3, cap 3, every index 0..4', tier='thorough', timeout=1800, jobs=2, assumption_ids=['A-kani', 'A-bound'])],
+  verus=[dict(unit='native', min_functions=1)],
+  explanation='loop-free Kani proof of index normalisation over every f64 (receiver length <= 8), bounded Kani checks of List buffer edits against a sequence model, Verus proof of the native signature gate',
+  not_decided=['iterator adaptors, string natives, map natives, tuple/list natives other than index normalisation (callbacks, Hooks, str)'],
+)
+PROPS['C17'] = dict(
+  level='proof',
+  verus=[dict(unit='module', min_functions=7)],
+  not_decided=['once-only execution of a module body (op_import retry protocol, module cache, package tree), import path resolution, module_instance construction',
+               'A-std: hashbrown map/set behave as mathematical map/set (stubs in vx/units/module/prelude.rs)'],
 )
